@@ -1,5 +1,6 @@
 """C12 — no query batch can make the application panic, abort or run without bound."""
 from core import *
+import sys
 import common
 
 EXPLANATION = (
@@ -711,43 +712,33 @@ def _rc_cursor_iter(F, nb):
 
 
 def _rc_multiset_next(F, nb):
-    loops = _loops_of(nb)
-    if not loops:
-        return False, "expected the radix loop"
-    h = min(x for x, _ in loops)
-    tm = Terms(nb)
-    rows = [r for r in table(nb, max_paths=5000) if r.end == "return"]
-    none_when_done = any(result_variant(r.ret) == "None" and sel_is(r, ("field", ("arg", 1), "pos"), "None") for r in rows)
-    # the block that ends the iteration: (*self).pos = None
-    end_bb = None
-    for bb, blk in enumerate(nb.blocks):
-        for pos, st in enumerate(blk["stmts"]):
-            pl = st.get("place")
-            if st["k"] == "assign" and pl and pl["l"] == 1 and [e["k"] for e in pl["p"]] == ["deref", "field"] and pl["p"][1].get("name") == "pos":
-                v = nosite(deep_strip(tm.rvalue(st["rv"], bb, pos)))
-                if result_variant(v) == "None" and not blk.get("cleanup"):
-                    # the defining block of that None value is the arm taken when the iteration is finished
-                    l = root_local(nb, st["rv"]["op"]) if st["rv"]["k"] == "use" else None
-                    ds = [d for d in nb.defs.get(l, []) if not d[2]] if l is not None else []
-                    end_bb = ds[0][0] if len(ds) == 1 else bb
-    if end_bb is None or not none_when_done:
-        return False, "next() must return None once pos is None and set pos = None when finished"
-    # the flag that selects that block, and its value when the radix loop runs zero times
-    for sbb, dt, names, t in switches(nb, tm):
-        if names is not None:
-            continue
-        f, tr = bool_targets(t)
-        if tr is not None and nb.dominates(tr, end_bb) and not nb.dominates(f, end_bb):
-            d = t["discr"]
-            if d["k"] in ("copy", "move") and not d["place"]["p"]:
-                l = root_local(nb, d)
-                if l is None:
-                    continue
-                v = unmut_all(nosite(deep_strip(loop_entry_value(nb, h, l))))
-                if v == ("const", "bool", True) or (v[0] == "call" and v[1].endswith("::is_empty") and contains(v, lambda q: q == ("field", ("arg", 1), "sets"))):
-                    return True, "finished starts as sets.is_empty()"
-                return False, "the flag that ends the iteration starts as %s: with zero sets the radix loop does not run, the flag stays false and the iterator never ends (it must start as sets.is_empty())" % short(v)[:60]
-    return False, "no flag controls `pos = None`"
+    """the step function read as a transition system (the rule of C17.R3, whatever the spelling): None once exhausted; the
+    first position below its final value goes up by one, positions passed are rewound, the iterator finishes after the last
+    position is at its final value — and at once when there are no sets.  With finite radices that counter reaches its end."""
+    import importlib
+    c17 = importlib.import_module("props.C17")
+
+    class Shim:
+        def __init__(self):
+            self.F = F
+            self.failed = []
+
+        def check(self, ok, inst, msg, where=None, detail=None):
+            if not ok and inst != "next:emits-current-position":
+                self.failed.append("%s: %s" % (inst, msg[:200]))
+            return ok
+
+        def bad(self, inst, msg, where=None, detail=None):
+            self.failed.append("%s: %s" % (inst, msg[:200]))
+
+        def ok(self, *a, **k):
+            pass
+
+    sh = Shim()
+    c17.odometer_next(sh, F)
+    if sh.failed:
+        return False, sh.failed[0]
+    return True, "mixed-radix step function re-checked (C17.R3)"
 
 
 ws_iter("routee_compass_core::util::compact_ordered_hash_map::CompactOrderedHashMapIter", "index cursor advances by one per item; None at index >= len", _rc_cursor_iter)
